@@ -9,7 +9,7 @@ Local Open Scope N_scope.
 Theorem C29_parse_is_fold_over_list_elements : forall st v,
   cc_parse_from st v = Some (fold_left step_pair (pairs_of v) st) /\
   map fst (pairs_of v) = list_items 44 v.
-Proof. exact (fun st v => conj (cc_parse_from_fold st v) (pairs_of_items v)). Qed.
+Proof. exact parse_fold_pairs. Qed.
 Print Assumptions C29_parse_is_fold_over_list_elements.
 
 (* on quote-free text the elements are the comma-split, OWS-trimmed, non-empty pieces (HopProofs) *)
@@ -92,18 +92,43 @@ Theorem C29_parse_htab_refuted :
 Proof. exact cc_htab_refuted. Qed.
 Print Assumptions C29_parse_htab_refuted.
 
+(* what parse() produces is well formed: numeric members of present directives are non-negative ints, the quoted
+   texts contain no DQUOTE / backslash / CTL, absent directives hold their defaults, no bit at or above CC_OTHER *)
+Theorem C29_parsed_object_wellformed : forall v st, cc_parse v = Some st -> cc_wf st.
+Proof. exact cc_parse_wf. Qed.
+Print Assumptions C29_parsed_object_wellformed.
+
+(* "%d" of a non-negative int is read back by httpHeaderParseInt *)
+Theorem C29_decimal_reads_back : forall n, (0 <= n < 2147483648)%Z -> parse_int (dec_of_Z n) = Some n.
+Proof. exact parse_int_dec. Qed.
+Print Assumptions C29_decimal_reads_back.
+
+(* strListGetItem re-splits elements joined by ", " into exactly those elements (elements that end outside
+   a quoted string, do not start with a delimiter, do not end with white space) *)
+Theorem C29_joined_elements_resplit : forall l, Forall good_item l -> list_items 44 (joinr l) = l.
+Proof. exact list_items_joinr. Qed.
+Print Assumptions C29_joined_elements_resplit.
+
+(* packInto writes the present known directives, in id order, joined by ", "; reading those elements back
+   through the specification gives the object *)
+Theorem C29_pack_is_joined_elements : forall st, cc_wf st -> cc_ok st = true -> other st = [] ->
+  cc_pack st = joinr (known st) /\ Forall good_item (known st) /\ spec_cc (known st) = st.
+Proof. exact pack_joined. Qed.
+Print Assumptions C29_pack_is_joined_elements.
+
+(* MAIN 3 (partial): parse (pack (parse v)) = parse v for every value whose parse succeeds and holds no unknown
+   directive. NOT covered by the proof: objects with a non-empty `other` (unknown directives are appended
+   verbatim after the known ones; that case rests on the correspondence run and the round-trip oracle). *)
+Theorem C29_pack_parse_roundtrip_partial : forall v st,
+  cc_parse v = Some st -> cc_ok st = true -> other st = [] -> cc_parse (cc_pack st) = Some st.
+Proof. exact cc_roundtrip_known. Qed.
+Print Assumptions C29_pack_parse_roundtrip_partial.
+
 (* ---- hypotheses are satisfiable / statements are not vacuous ---- *)
-(* max-age=5, private="Set-Cookie", no-store, foo, MAX-AGE=7 *)
-Definition ex_value : bytes :=
-  [109;97;120;45;97;103;101;61;53;44;32;112;114;105;118;97;116;101;61;34;83;101;116;45;67;111;111;107;105;101;34;44;32;
-   110;111;45;115;116;111;114;101;44;32;102;111;111;44;32;77;65;88;45;65;71;69;61;55].
 Example ex_parse_exact :
   spec_cc (list_items 44 ex_value) =
   mkcc 138 5 (-1) (-1) (-1) (-1) [83;101;116;45;67;111;111;107;105;101] [] [102;111;111].
 Proof. vm_compute. reflexivity. Qed.
-(* max-age=4294967396, s-maxage=-1 : both invalid, both absent *)
-Definition ex_invalid : bytes :=
-  [109;97;120;45;97;103;101;61;52;50;57;52;57;54;55;51;57;54;44;32;115;45;109;97;120;97;103;101;61;45;49].
 Example ex_invalid_hyp : forall it, In it (list_items 44 ex_invalid) -> d_type it = CC_MAX_AGE -> d_num it = None.
 Proof. vm_compute. intros it [<-|[<-|[]]] H; try reflexivity; discriminate. Qed.
 Example ex_invalid_items : map d_type (list_items 44 ex_invalid) = [CC_MAX_AGE; CC_S_MAXAGE].
@@ -117,3 +142,8 @@ Example ex_plain : forallb qd_char [83;101;116;45;67;111;111;107;105;101;44;32;6
 Proof. vm_compute. split; reflexivity. Qed.
 Example ex_simple : simple [109;97;120;45;97;103;101;61;53;44;32;110;111;45;115;116;111;114;101] = true.
 Proof. vm_compute. reflexivity. Qed.
+Example ex_roundtrip_hyp : exists st, cc_parse ex_known = Some st /\ cc_ok st = true /\ other st = [] /\
+  cmask st = 518 /\ max_age st = 60%Z /\ max_stale st = MAX_STALE_ANY /\ no_cache st <> [].
+Proof. eexists. vm_compute. repeat split; try reflexivity; discriminate. Qed.
+Example ex_roundtrip_text : exists st, cc_parse ex_known = Some st /\ cc_pack st <> ex_known.
+Proof. eexists. split; [vm_compute; reflexivity|vm_compute; discriminate]. Qed.
